@@ -13,6 +13,7 @@ import (
 	"strings"
 
 	vmcommon "github.com/ElrondNetwork/elrond-vm-common"
+	"verif/internal/tick"
 	"verif/internal/world"
 )
 
@@ -117,6 +118,13 @@ type Message struct {
 	Origin      *Call       // the call whose sender leg emitted it (for refunds: of the original message)
 	Moves       []TokenMove // tokens carried (from Origin's inputs)
 	OriginLeg   int
+	// Raw is the very slice the library handed out as OutputTransfer.Data and rawAt its content at
+	// that moment: until a message is delivered it IS that memory (the node serialises it later).
+	// If the library writes into it afterwards (a reused buffer), the message that arrives is the
+	// changed one.
+	Raw             []byte
+	rawAt           string
+	ChangedInFlight bool
 }
 
 type Leg struct {
@@ -456,6 +464,18 @@ func (n *Node) DeliverMsg(m *Message) *Leg {
 	if dstShard >= n.W.NumShards {
 		return nil
 	}
+	if m.Raw != nil && string(m.Raw) != m.rawAt {
+		// the memory the library returned was written to after the call returned
+		m.ChangedInFlight = true
+		m.Data = string(m.Raw)
+		m.rawAt = m.Data
+		f, a, err := Tokenize(m.Data)
+		m.ParseErr = ""
+		if err != nil {
+			m.ParseErr = err.Error()
+		}
+		m.Func, m.Args = f, a
+	}
 	c := Call{Func: m.Func, Caller: m.From, Recipient: m.To, Args: m.Args, Gas: m.Gas, GasLocked: m.GasLocked, CallType: m.CallType, RetAfterErr: m.RetAfterErr}
 	return n.run(SideDest, dstShard, c, m, nil, n.W.Shards[dstShard].Get(m.To))
 }
@@ -516,6 +536,8 @@ func (n *Node) run(side int, shard uint32, c Call, msg *Message, snd, dst *world
 		sh.BeginLeg(owned...)
 	}
 	var a0 uint64
+	tick.Legs.Add(1)
+	d0 := tick.Dumps.Load()
 	if n.MeasureAlloc {
 		a0 = heapAllocs()
 	}
@@ -538,7 +560,11 @@ func (n *Node) run(side int, shard uint32, c Call, msg *Message, snd, dst *world
 	}()
 	if n.MeasureAlloc {
 		leg.AllocBytes = heapAllocs() - a0
+		if tick.Dumps.Load() != d0 {
+			leg.AllocBytes = 0 // the stall detector allocated meanwhile: no verdict for this call
+		}
 	}
+	tick.Legs.Add(1)
 	w.Logging = false
 	leg.Deps = append([]world.DepCall{}, w.Log...)
 	leg.InputMut = bi.mutated()
@@ -586,6 +612,9 @@ func (n *Node) run(side int, shard uint32, c Call, msg *Message, snd, dst *world
 // VM merges output accounts into one another). After the observers have seen the leg every big
 // integer of the output is changed; a value shared with the library's own state would carry the
 // change into later calls.
+// ScribbleOutput is scribbleOutput for monitors that re-execute a call themselves.
+func ScribbleOutput(o *vmcommon.VMOutput) { scribbleOutput(o) }
+
 func scribbleOutput(o *vmcommon.VMOutput) {
 	if o == nil {
 		return
@@ -678,7 +707,7 @@ func (n *Node) emit(leg *Leg, snd, dst *world.Account) {
 			dataEmitted = true
 			n.msgID++
 			m := &Message{ID: n.msgID, Data: string(ot.Data), From: append([]byte{}, from...), To: append([]byte{}, oa.Address...), Gas: ot.GasLimit, GasLocked: ot.GasLocked,
-				CallType: ot.CallType, Origin: origin, OriginLeg: leg.Seq}
+				CallType: ot.CallType, Origin: origin, OriginLeg: leg.Seq, Raw: ot.Data, rawAt: string(ot.Data)}
 			f, a, err := Tokenize(m.Data)
 			if err != nil {
 				m.ParseErr = err.Error()
